@@ -440,15 +440,15 @@ where
 
     for (id, pool) in get_all_pools().iter() {
         for address in pool.get_addresses_from_host(host) {
-            if !pool.is_banned(&address) {
-                pool.ban(&address, BanReason::AdminBan(duration_seconds), None);
-                res.put(data_row(&vec![
-                    id.db.clone(),
-                    id.user.clone(),
-                    address.role.to_string(),
-                    address.host,
-                ]));
-            }
+            // A replica that is already on the list (a failed health check, an earlier BAN)
+            // is banned again: from now on it is the administrator's duration that counts.
+            pool.ban(&address, BanReason::AdminBan(duration_seconds), None);
+            res.put(data_row(&vec![
+                id.db.clone(),
+                id.user.clone(),
+                address.role.to_string(),
+                address.host,
+            ]));
         }
     }
 
